@@ -38,7 +38,6 @@ func main() {
 	if t := os.Getenv("VERIF_TIER"); t != "" && *tier == "" {
 		*tier = t
 	}
-	var code int
 	if os.Getenv("VERIF_SUPERVISED") == "" && os.Getenv("VERIF_WORKER") == "" && *c20Child < 0 && *c12Journal == "" && *svcReplay == "" && *replay == "" && *prop != "" {
 		os.Exit(supervise(*prop, *tier))
 	}
@@ -61,6 +60,12 @@ func main() {
 		}
 		os.Exit(csvc.Replay(*tier, sc, path))
 	}
+	os.Exit(runProp(*prop, *tier))
+}
+
+func runProp(propv, tierv string) int {
+	prop, tier := &propv, &tierv
+	var code int
 	switch *prop {
 	case "C04":
 		code = c04.Run(*tier)
@@ -98,5 +103,5 @@ func main() {
 		fmt.Fprintf(os.Stderr, "unknown property %q\n", *prop)
 		code = 2
 	}
-	os.Exit(code)
+	return code
 }
